@@ -3,10 +3,12 @@ C15 — the similarity container is a symmetric map; the CSV round trip is lossl
 Model: Hpv/Sim.lean (`SimilarityContainer` as a history machine over the nested dict keyed by the ordered pair;
 `MetadataAware.metadata_to_str/_from_str` over code-point strings, parametric in the table of forbidden characters that
 the check extracts from the source on every run).  Values are integers standing for floats under an order-preserving
-injection (the container only compares with 0 and stores).  `csv`, `gzip`, `repr(float)`/`float(str)` are not modelled:
-the file-level round trip is exercised by the correspondence run; its logical core is `rebuild_get` + `meta_round_trip`.
+injection (the container only compares with 0 and stores).  The csv dialect (writer with minimal or any stronger quoting, the reader's state machine over physical lines, the
+`DictReader` layer) is Hpv/Csv.lean, so the file-level round trip is a theorem from the rows to the rows (`csv_round_trip`,
+`file_round_trip`); `gzip`, the codec and `repr(float)`/`float(str)` are not modelled (correspondence run).
 -/
 import Hpv.SimProofs
+import Hpv.CsvProofs
 
 namespace Hpv.Props.C15
 open Hpv.Sim
@@ -77,6 +79,62 @@ theorem file_frame_round_trip (forb : List Nat) (htab : TableOk forb = true) (m 
       parseMeta (unframe (frame title s body)).1 = .ok m :=
   Hpv.Sim.file_round_trip forb htab m hm title body hbody
 
+/-- **The csv layer is lossless.** Whatever rows the writer is given - each with at least one field; fields with any
+characters, delimiters, quotes, CR, LF and CR LF included; any fields quoted beyond necessity (`force`) - the reader,
+fed the physical lines of that text, returns exactly those rows. -/
+theorem csv_round_trip (force : Nat → Nat → Bool) (rs : List (List Hpv.Csv.Str)) (hrs : ∀ r ∈ rs, r ≠ []) :
+    Hpv.Csv.readAll (Hpv.Csv.writeRows force 0 rs) = .ok rs :=
+  Hpv.Csv.read_write force rs hrs
+
+/-- **The written file, end to end**: title comment, metadata comment, then the physical lines of what the csv writer
+produced for a header row (whose first column name begins with a character other than `#`) and any data rows. The reader's
+header filter, `_parse_meta`, the csv reader and the `DictReader` layer together return the metadata and, for every data
+row in order, its values under the column names - nothing lost, nothing added, whatever the term ids contain. -/
+theorem file_round_trip (forb : List Nat) (htab : TableOk forb = true) (m : Meta) (hm : MetaOk forb m) (title : Str)
+    (force : Nat → Nat → Bool) (c : Nat) (w : Str) (hs : List Str) (rows : List (List Str))
+    (hc : c ≠ Hpv.Sim.hash) (hrs : ∀ r ∈ rows, r ≠ []) :
+    ∃ s, encodeMeta forb m = .ok s ∧
+      parseMeta (unframe (frame title s (Hpv.Csv.splitLines (Hpv.Csv.writeRows force 0 (((c :: w) :: hs) :: rows))))).1 = .ok m ∧
+      Hpv.Csv.readDict (unframe (frame title s
+          (Hpv.Csv.splitLines (Hpv.Csv.writeRows force 0 (((c :: w) :: hs) :: rows))))).2.flatten =
+        .ok ((c :: w) :: hs, rows.map (fun r => ((c :: w) :: hs).zip r)) := by
+  -- the text begins with the first character of the header row or with a quote
+  have hhead : ∃ c' t', Hpv.Csv.writeRows force 0 (((c :: w) :: hs) :: rows) = c' :: t' ∧ (c' = Hpv.Csv.quote ∨ c' = c) := by
+    have hw : ∃ t', Hpv.Csv.writeField (force 0 0) (c :: w) = Hpv.Csv.quote :: t' ∨ Hpv.Csv.writeField (force 0 0) (c :: w) = c :: t' := by
+      unfold Hpv.Csv.writeField
+      split
+      · exact ⟨_, Or.inl rfl⟩
+      · exact ⟨_, Or.inr rfl⟩
+    obtain ⟨t', ht'⟩ := hw
+    cases hs with
+    | nil =>
+      rcases ht' with h | h
+      · exact ⟨_, _, by simp [Hpv.Csv.writeRows, Hpv.Csv.writeRow, Hpv.Csv.writeFields, h]; rfl, Or.inl rfl⟩
+      · exact ⟨_, _, by simp [Hpv.Csv.writeRows, Hpv.Csv.writeRow, Hpv.Csv.writeFields, h]; rfl, Or.inr rfl⟩
+    | cons g gs =>
+      rcases ht' with h | h
+      · exact ⟨_, _, by simp [Hpv.Csv.writeRows, Hpv.Csv.writeRow, Hpv.Csv.writeFields, h]; rfl, Or.inl rfl⟩
+      · exact ⟨_, _, by simp [Hpv.Csv.writeRows, Hpv.Csv.writeRow, Hpv.Csv.writeFields, h]; rfl, Or.inr rfl⟩
+  obtain ⟨c', t', htext, hc'⟩ := hhead
+  have hne : c' ≠ Hpv.Sim.hash := by
+    rcases hc' with rfl | rfl
+    · decide
+    · exact hc
+  obtain ⟨l, ls, hl, hlh⟩ := Hpv.Csv.splitLines_head c' t'
+  have hcom : isComment l = false := by
+    cases l with
+    | nil => simp at hlh
+    | cons x xs =>
+      simp only [List.head?_cons, Option.some.injEq] at hlh
+      subst hlh
+      simp [isComment, hne]
+  obtain ⟨s, h1, h2, h3⟩ := file_frame_round_trip forb htab m hm title
+    (Hpv.Csv.splitLines (Hpv.Csv.writeRows force 0 (((c :: w) :: hs) :: rows)))
+    (Or.inr ⟨l, ls, by rw [htext, hl], hcom⟩)
+  refine ⟨s, h1, h3, ?_⟩
+  rw [h2, Hpv.Csv.flatten_splitLines]
+  exact Hpv.Csv.readDict_write force _ rows (by simp) hrs
+
 /-- `to_csv` stamps the metadata with `created` first, so what it encodes is never empty. -/
 theorem stamped_nonempty (m : Meta) (ts : Str) : upsert createdKey ts m ≠ [] := by
   intro h
@@ -95,5 +153,13 @@ example : decodeMeta [97, 61, 120, 59, 98, 61] = .ok [([97], [120]), ([98], [])]
 example : unframe (frame [116] [107, 61, 118] [[116, 10], [35, 88, 58, 49, 44, 72, 10], [35, 10]]) =
     ([[35, 116, 10], [35, 107, 61, 118, 10]], [[116, 10], [35, 88, 58, 49, 44, 72, 10], [35, 10]]) := by decide
 example : parseMeta [[35, 116, 10], [35, 107, 61, 118, 13, 10]] = .ok [([107], [118])] := by rfl
+
+-- the csv layer on a row with a delimiter, a quote, a CR LF and a lone LF inside fields, and a row of one empty field
+example : Hpv.Csv.writeMinimal [[[97, 44, 98], [34], [13, 10, 35], [10]], [[]]] =
+    [34, 97, 44, 98, 34, 44, 34, 34, 34, 34, 44, 34, 13, 10, 35, 34, 44, 34, 10, 34, 13, 10, 34, 34, 13, 10] := by decide
+example : Hpv.Csv.readAll (Hpv.Csv.writeMinimal [[[97, 44, 98], [34], [13, 10, 35], [10]], [[]]]) =
+    .ok [[[97, 44, 98], [34], [13, 10, 35], [10]], [[]]] := by rfl
+-- hostile texts: a lone CR ends a record, a blank line is the record `[]`, an unterminated quoted field is flushed
+example : Hpv.Csv.readAll [97, 13, 98, 10, 10, 34, 99] = .ok [[[97]], [[98]], [], [[99]]] := by rfl
 
 end Hpv.Props.C15
